@@ -24,6 +24,8 @@ func checkC14(c *Check, a *Anchors) {
 	resolvesThroughGetTask(c, a, "resolves-through-GetTask")
 	extrasWin(c, a)
 	deferIndexConsistent(c, a)
+	c14DeferCachePerEntry(c, a)
+	sharedWait(c, a) // "before the task's caller continues": a caller that joined a shared execution returns only when that execution — deferred commands included — has finished
 	cmdTemplatedWhole(c, a) // a deferred task call sees .EXIT_CODE and the deferring task's variables only if its name and vars are rendered too
 }
 
@@ -353,4 +355,44 @@ func c14ExitCode(c *Check, a *Anchors) {
 	if !found {
 		c.Bad("exit-code-visible", "inject-when-positive@"+fnDisplay(fb), fb.Decl.Pos(), "the deferred-command runner no longer injects EXIT_CODE")
 	}
+}
+
+// c14DeferCachePerEntry: deferred entries are rendered independently of one another.
+func c14DeferCachePerEntry(c *Check, a *Anchors) {
+	c.Rule("defer-cache-per-entry", "the deferred-command runner renders its entry with a templater.Cache that it builds itself (a local of the runner assigned a fresh &templater.Cache{…}), never one it is handed: a Cache remembers the first template error and then renders nothing, so a cache shared by the deferred entries of a task lets one entry whose template fails make every entry that runs after it execute its raw, unrendered text (without .EXIT_CODE)")
+	fb := a.DeferRunner
+	c.Fn(fb)
+	info := fb.Info()
+	n := 0
+	ord := map[string]int{}
+	for _, call := range callsIn(fb, true) {
+		fn, ok := callee(info, call).(*types.Func)
+		if !ok || fn.Pkg() == nil || fn.Pkg().Path() != PkgTemplater || !strings.HasPrefix(fn.Name(), "Replace") {
+			continue
+		}
+		for _, arg := range call.Args {
+			tv, ok := info.Types[arg]
+			if !ok || !isNamed(tv.Type, PkgTemplater, "Cache") {
+				continue
+			}
+			n++
+			own := false
+			if v := varOf(info, arg); v != nil && !isParamOf(info, fb, v) && !v.IsField() {
+				for _, d := range defsOf(info, fb.Body, v) {
+					d = ast.Unparen(d)
+					if u, ok := d.(*ast.UnaryExpr); ok && u.Op == token.AND {
+						d = ast.Unparen(u.X)
+					}
+					if cl, ok := d.(*ast.CompositeLit); ok {
+						if ctv, ok := info.Types[cl]; ok && isNamed(ctv.Type, PkgTemplater, "Cache") {
+							own = true
+						}
+					}
+				}
+			}
+			c.Decide(own, "defer-cache-per-entry", ordinal(ord, fn.Name()+"@"+fnDisplay(fb)), call.Pos(), "rendered with a cache built in the runner",
+				"the deferred entry is rendered with `"+exprStr(arg)+"`, which the runner did not build itself: the cache (and its sticky first error, and the variables it was built from) is shared with the other deferred entries of the task")
+		}
+	}
+	c.Floor("defer-cache-per-entry", n, 1)
 }
